@@ -251,10 +251,13 @@ impl From<std::time::SystemTime> for DateTime {
             }
             Err(error) => {
                 let duration = error.duration();
-                debug_assert!(duration.as_secs() <= i64::MAX as u64);
+                // the earliest `SystemTime` is 2^63 seconds before the epoch, one more
+                // than `i64::MAX`: its cast wraps to `i64::MIN`, which is already the
+                // negated value.
+                debug_assert!(duration.as_secs() <= i64::MAX as u64 + 1);
                 let (secs, nanos) = (duration.as_secs() as i64, duration.subsec_nanos());
                 if nanos == 0 {
-                    (-secs, 0)
+                    (secs.wrapping_neg(), 0)
                 } else {
                     (-secs - 1, 1_000_000_000 - nanos)
                 }
